@@ -49,6 +49,7 @@ type Case struct {
 	Num     uint32 `json:"num,omitempty"`
 	Gen     int    `json:"gen,omitempty"`
 	Light   bool   `json:"light_reader,omitempty"` // cross-reference data too large for ref/pdffile: objects located by walking the body
+	Order   *Order `json:"order,omitempty"`        // the order of the Writer calls (absent = sequential); see model.go
 
 	// direction "read"
 	R       int    `json:"r,omitempty"`
@@ -150,6 +151,9 @@ func (c *Case) describe() string {
 	if c.Human {
 		s += " human-readable"
 	}
+	if c.Order != nil {
+		s += " write order " + c.Order.String()
+	}
 	return s
 }
 
@@ -190,7 +194,7 @@ func (rn *runner) checkWritten(c *Case) []failure {
 	}
 	pu, _ := stdsec.Prepare(c.User, fa.R)
 	po, _ := stdsec.Prepare(c.Owner, fa.R)
-	r.DistinctS(fmt.Sprintf("w|%s|%s|%s|%d|%v|%s|%d|%d|%x|%x", c.Version, c.Meta, c.ID, c.Perm, c.Human, c.Graph, c.Num, c.Gen, pu, po))
+	r.DistinctS(fmt.Sprintf("w|%s|%s|%s|%d|%v|%s|%d|%d|%x|%x|%s", c.Version, c.Meta, c.ID, c.Perm, c.Human, c.Graph, c.Num, c.Gen, pu, po, c.Order.key()))
 	kind := "table"
 	if fa.xrefStream {
 		kind = "xrefstream"
@@ -271,7 +275,7 @@ func Run(tier string) int {
 	}
 	r := ev.New("C10", tier, "exploration", budget)
 	rn := &runner{r: r, full: fullGraph(), num: numGraph(), rev: reverseGraph()}
-	r.Rule("a case is one file. Direction 'write': (version, user password, owner password, permission set, metadata mode, ID mode[, base object number and generation]) written by the Writer and judged by ref/pdffile + ref/stdsec; direction 'read': (revision, V, key length, cipher, passwords, P, metadata mode, ID mode, string syntax) written by ref/stdsec + the serialiser of this package and opened by the Reader with the user and with the owner password. evaluations = files written (+ Reader opens in direction 'read'); distinct = distinct tuples of encrypted files with the passwords replaced by their prepared form (passwords the standard's preparation identifies count once); files the Writer refuses are counted under rejected:* and are not distinct cases")
+	r.Rule("a case is one file. Direction 'write': (version, user password, owner password, permission set, metadata mode, ID mode[, base object number and generation][, write order = order of the Put/OpenStream/Write/Close/WriteCompressed calls]) written by the Writer and judged by ref/pdffile + ref/stdsec; direction 'read': (revision, V, key length, cipher, passwords, P, metadata mode, ID mode, string syntax) written by ref/stdsec + the serialiser of this package and opened by the Reader with the user and with the owner password. evaluations = files written (+ Reader opens in direction 'read'); distinct = distinct tuples of encrypted files with the passwords replaced by their prepared form (passwords the standard's preparation identifies count once); files the Writer refuses are counted under rejected:* and are not distinct cases")
 	r.Assume("ref/stdsec (Algorithms 1-13 from ISO 32000-2 7.6 / ISO 32000-1 / Adobe Supplement ExtensionLevel 3 for revision 5) and ref/pdffile are self-tested at start",
 		"Algorithm 3 (c): both the letter (MD5 over 16 bytes) and the de-facto reading (first n bytes) are accepted for /O of revision 3 files with keys shorter than 128 bits; the reading found is reported as an outcome",
 		"crypt filter /Length in bytes or in bits is accepted (table 27 vs. deployed practice)",
@@ -323,6 +327,50 @@ func Run(tier string) int {
 		}
 	}
 	nB := len(jobs) - nA
+	// (e) write orders: every order of the family (model.go, Order) for both
+	// graphs.  The key of a string must be the key of its own object whatever
+	// was "current" when it was formatted.  (All permissions with the full
+	// graph: revision 2 at 1.1-1.3; the permission set of the number space
+	// with the number graph: revision 3 with 40-bit keys there.)
+	fullOrders, numOrders := orders(rn.full), orders(rn.num)
+	countKind := func(os []*Order) map[string]int {
+		m := map[string]int{}
+		for _, o := range os {
+			if o == nil {
+				m["sequential"]++
+			} else {
+				m[o.Kind]++
+			}
+		}
+		return m
+	}
+	r.Dim("write_orders_full_graph", countKind(fullOrders))
+	r.Dim("write_orders_num_graph", countKind(numOrders))
+	r.Dim("write_order_split_points_by_body_length", map[string][]int{"0": splitsFor(0), "100": splitsFor(100), "2000": splitsFor(2000)})
+	ordPw := ev.Pick(r, numPw[:1], numPw)
+	ordIDs := ev.Pick(r, []string{"16"}, []string{"16", "absent"})
+	ordHumanFull := ev.Pick(r, []bool{false}, []bool{false, true})
+	r.Dim("write_order_password_pairs", len(ordPw))
+	r.Dim("write_order_id_modes", ordIDs)
+	for _, v := range versions {
+		for _, pr := range ordPw {
+			for _, id := range ordIDs {
+				for _, human := range ordHumanFull {
+					for _, o := range fullOrders[1:] {
+						jobs = append(jobs, Case{Dir: "write", Space: "orders", Version: v, User: pr[0], Owner: pr[1], Perm: int(pdf.PermAll), Meta: "none", ID: id, Human: human, Graph: "full", Order: o})
+					}
+				}
+				for _, human := range []bool{false, true} {
+					for _, ng := range numPairs {
+						for _, o := range numOrders[1:] {
+							jobs = append(jobs, Case{Dir: "write", Space: "orders", Version: v, User: pr[0], Owner: pr[1], Perm: int(pdf.PermCopy | pdf.PermForms), Meta: "none", ID: id, Human: human, Graph: "num", Num: uint32(ng[0]), Gen: ng[1], Order: o})
+						}
+					}
+				}
+			}
+		}
+	}
+	nE := len(jobs) - nA - nB
 	// (c) the largest object numbers: cross-reference streams only in the
 	// quick tier (a classic table has 2^24 entries of 20 bytes)
 	bigVersions := ev.Pick(r, []string{"1.5", "1.7", "2.0"}, []string{"1.3", "1.4", "1.5", "1.6", "1.7", "2.0"})
@@ -337,6 +385,7 @@ func Run(tier string) int {
 	r.Dim("files_config_space", nA)
 	r.Dim("files_number_space", nB)
 	r.Dim("files_big_number_space", len(big))
+	r.Dim("files_write_order_space", nE)
 	r.Dim("files_reference_written", len(rjobs))
 	jobs = append(jobs, rjobs...)
 
@@ -392,7 +441,13 @@ func Run(tier string) int {
 	})
 	pick(nA, nA+nB, func(c *Case) bool { return c.Version == "1.7" && c.Num == 7 && c.Gen == 65535 && !c.Human })
 	r.Sample(big[0])
-	pick(nA+nB, len(jobs), func(c *Case) bool {
+	pick(nA+nB, nA+nB+nE, func(c *Case) bool {
+		return c.Version == "1.6" && c.Graph == "full" && c.Order.Kind == "inside" && c.Order.Host == 11 && c.Order.Split == 1008 && c.Order.K == 2
+	})
+	pick(nA+nB, nA+nB+nE, func(c *Case) bool {
+		return c.Version == "1.3" && c.Graph == "num" && c.Num == 65535 && c.Order.Kind == "as-stream"
+	})
+	pick(nA+nB+nE, len(jobs), func(c *Case) bool {
 		return c.R == 5 && c.User == "ä" && c.Owner == "ab" && c.Meta == "plaintext" && c.Hex
 	})
 	return r.Finish()
